@@ -38,6 +38,6 @@ def mergeTree (gt : α → α → Bool) (dst : T α) (dl : List α) (src : T α)
     (iterOrder (T.node c' l' d' r')).foldl (fun t x => Rb.insert gt x t) (.node c l d r)
   | _, .nil =>
     -- lyds_merge_nodes1 (after lyds_additionally_create_rb_tree if needed): source instances in sibling order
-    sl.foldl (fun t x => Rb.insert gt x t) (Lyds.base dst dl.head?)
+    sl.foldl (fun t x => Rb.insert gt x t) (Lyds.base gt dst dl)
 
 end LyModel.Sib.Rb
